@@ -73,6 +73,11 @@ BASES = [
                                                     [_txt(2, 0, 60)]],
      'compress': True, 'loop': ['ping']},
     {'name': 'big_vs_small', 'threads': [[_bin(1, 0, 65536)], [_txt(2, 0)]]},
+    # far beyond any plausible chunking / fragmentation threshold
+    {'name': 'huge_vs_small', 'threads': [[_bin(1, 0, 300000)],
+                                          [_txt(2, 0), _bin(2, 1)]]},
+    {'name': 'huge_text_vs_small_compressed',
+     'threads': [[_txt(1, 0, 1200000)], [_txt(2, 0, 60)]], 'compress': True},
     {'name': 'big_compressed_vs_small', 'threads': [[_bin(1, 0, 65540)],
                                                      [_txt(2, 0, 60)]],
      'compress': True},
@@ -138,6 +143,41 @@ def _full2_size(b):
 
 def _full2_bases():
     return [i for i, b in enumerate(BASES) if b['name'] in FULL2]
+
+
+def _reassemble(frames):
+    """Join the fragments of fragmented messages -> (frames, problem).
+    problem: a data frame of another message, or a continuation nobody
+    opened, in the middle - what a peer fails the connection for."""
+    out, cur, problem = [], None, None
+    for f in frames:
+        if f.opcode >= 8:
+            out.append(f)
+            continue
+        if f.opcode == 0:
+            if cur is None:
+                problem = problem or ('fragments_stray_continuation', repr(f))
+                continue
+            cur.payload = bytes(cur.payload) + bytes(f.payload)
+            if f.fin:
+                cur.fin = 1
+                cur.minimal = True
+                out.append(cur)
+                cur = None
+            continue
+        if cur is not None:
+            problem = problem or ('fragments_interleaved_with_other_message',
+                                  'data frame %r while a fragmented message '
+                                  'is open' % (f,))
+            out.append(f)
+            continue
+        if f.fin:
+            out.append(f)
+        else:
+            cur = copy.copy(f)
+    if cur is not None:
+        problem = problem or ('fragments_never_finished', repr(cur))
+    return out, problem
 
 
 def plan(tier):
@@ -370,16 +410,32 @@ def execute(case):
         res.bad('C11/%s/torn_frame' % base,
                 'bytes after offset %d do not form a whole frame | %s' % (
                     wire.rest, sig))
-    bad = oracle.wire_problems(wire, compress)
+    # A tree that cuts a large message into fragments breaks C03 ("exactly
+    # one frame, FIN set"), not C11, as long as the fragments of one message
+    # stay together: fragments are joined first and only what is wrong with
+    # the joined sequence is judged here.
+    frames, frag_problem = _reassemble(wire.frames)
+    if frag_problem:
+        res.bad('C11/%s/%s' % (base, frag_problem[0]),
+                '%s | %s' % (frag_problem[1], sig))
+    if len(frames) != len(wire.frames):
+        res.xobs.append('C03/message_written_in_fragments')
+        res.stats['probe:fragmented_client_message'] += 1
+    bad = []
+    for f in frames:
+        pr = peer.client_frame_problems(f, compress)
+        if pr:
+            bad.append(('bad_client_frame:' + '+'.join(pr), repr(f)))
     for k, m in bad:
-        if k != 'torn_frame':
-            res.bad('C11/%s/%s' % (base, k), '%s | %s' % (m, sig))
+        res.bad('C11/%s/%s' % (base, k), '%s | %s' % (m, sig))
+    if frag_problem:
+        bad.append(frag_problem)
     # ---- the peer decodes every message in wire order
     dp = peer.DeflatePeer(15, case.get('cbits') or 15, False,
                           bool(case.get('cnct')))
     decoded = []
     inflate_error = None
-    for f in wire.frames:
+    for f in frames:
         p = f.payload
         if f.rsv1:
             try:
